@@ -12,6 +12,12 @@ pub const JSX_BODIES: &[&str] = &[
   "function D() { return <>{[1,2].map((n) => <li key={n}>{n}</li>)}</>; }",
   "const e = 1;",
   "let f = h; f = <p/>;",
+  // bindings that are referenced only from inside their own declaration (not a use), in a fragment / an element
+  "function Tree(p) { return <>{p.depth > 0 ? <Tree depth={p.depth - 1}/> : null}</>; }",
+  "const label = <>{typeof label}</>;",
+  "function Rec(p) { return <div>{p.n ? <Rec n={p.n - 1}/> : null}</div>; }",
+  "const selfRef = <a>{typeof selfRef}</a>;",
+  "const g = () => <><b/>{typeof g}</>;",
 ];
 pub const IMPORTS: &[&str] = &[
   "import { h } from \"preact\";",
